@@ -343,7 +343,8 @@ class State:
                 return PtrV(a.t, a.cell, a.path, z3.Or(z3.Not(c), to_bool(a.nil)), z3.If(c, a.ref, NIL), a.roott)
             if a.cell is None:
                 return PtrV(b.t, b.cell, b.path, z3.Or(c, to_bool(b.nil)), z3.If(c, NIL, b.ref), b.roott)
-            raise Unsupported("ite of different pointers")
+            # genuinely different targets: a conditional pointer
+            return PtrV(a.t, ("ite", c, a, b), (), z3.If(c, to_bool(a.nil), to_bool(b.nil)), z3.If(c, a.ref, b.ref), a.roott)
         if isinstance(a, MapV) and isinstance(b, MapV):
             if a.cell == b.cell:
                 return MapV(a.t, a.cell, z3.If(c, to_bool(a.nil), to_bool(b.nil)), z3.If(c, a.ref, b.ref))
@@ -396,6 +397,9 @@ class State:
         return cid
 
     def load(self, p):
+        if isinstance(p.cell, tuple) and p.cell and p.cell[0] == "ite":
+            _, c, a, b = p.cell
+            return self.ite(c, self.load(self._ext(a, p.path)), self.load(self._ext(b, p.path)))
         cid = self._materialize(p)
         v = self.heap[cid]
         for step in p.path:
@@ -409,7 +413,18 @@ class State:
             return self.seq_read(v.seq, to_int(step), v.t)
         raise Unsupported("path step %r into %r" % (step, type(v)))
 
+    def _ext(self, p, path):
+        return p if not path else PtrV(p.t, p.cell, tuple(p.path) + tuple(path), p.nil, p.ref, p.roott)
+
     def store(self, p, val):
+        if isinstance(p.cell, tuple) and p.cell and p.cell[0] == "ite":
+            _, c, a, b = p.cell
+            pa, pb = self._ext(a, p.path), self._ext(b, p.path)
+            if a.cell is not None:
+                self.store(pa, self.ite(c, val, self.load(pa)))
+            if b.cell is not None:
+                self.store(pb, self.ite(c, self.load(pb), val))
+            return
         cid = self._materialize(p)
         if not isinstance(cid, int):
             self.writes.append((cid, p.path))
@@ -504,7 +519,7 @@ class State:
             present = uf("mapdom:" + c.vt, [c.base.sort()] + [k.sort() for k in kl], z3.BoolSort())(c.base, *kl)
             val = self.from_uf(c.vt, "mapval:" + c.vt, [c.base] + kl)
         for (k, p, v) in c.ups:
-            e = to_bool(self.eq(key, k))
+            e = z3.simplify(to_bool(self.eq(key, k)))
             present = self.ite(e, to_bool(p), present)
             val = self.ite(e, v, val) if v is not None else val
         return present, val
